@@ -480,6 +480,9 @@ fn exchange(proto: &str, addr: SocketAddr, req: &str, ctr: &AtomicUsize, abort: 
     let c = TcpStream::connect_timeout(&addr, T_IO);
     let hi = ctr.load(Ordering::SeqCst);
     let mut tcp = match c {
+        // a connect() to a closed local port of the ephemeral range can end up connected to itself (TCP
+        // simultaneous open): nobody is listening there
+        Ok(t) if t.local_addr().ok() == t.peer_addr().ok() => return (false, lo, hi, "SelfConnect".into(), "none".into(), "none".into()),
         Ok(t) => t,
         Err(e) => return (false, lo, hi, format!("{:?}", e.kind()), "none".into(), "none".into()),
     };
@@ -743,10 +746,15 @@ fn run_scenario(sc: &Scenario, be: &Backends, pause_ms: u64, jitter_ms: u64, see
     // ---- helpers working on the slots
     // a request whose head went through a worker thread that was since "killed" can only hang (the thread
     // leaves its sockets open, a dead process would not): do not wait the full client timeout for it
-    fn slot_timeout(s: &Slot, old_dead: &AtomicBool) -> Duration {
-        if old_dead.load(Ordering::SeqCst) && lookup_seen(&s.req) == "old" { Duration::from_secs(2) } else { T_IO }
+    fn slot_timeout(_s: &Slot, old_dead: &AtomicBool) -> Duration {
+        if old_dead.load(Ordering::SeqCst) { Duration::from_secs(3) } else { T_IO }
     }
     fn release(slots: &mut [Slot], when: &str, ctl: &mut Ctl, old_dead: &AtomicBool) {
+        // a killed worker thread keeps its connections open: reading a parked connection now would stall the
+        // hand-over itself for a whole client time-out. They are read out once the successor is active.
+        if old_dead.load(Ordering::SeqCst) {
+            return;
+        }
         for (i, s) in slots.iter_mut().enumerate() {
             if s.ended || s.spec.release != when {
                 continue;
